@@ -20,6 +20,10 @@ pub enum Strat {
     ReleaseEager,
     /// async only: prefer polling over releasing gates
     ReleaseLazy,
+    /// async only: poll every notified task until quiescence (lowest task first), then release the pending gate
+    /// with the smallest hash(seed, event, occurrence): the completion order is a function of the seed and of the
+    /// gates' identities only, so it is the same for a macro and its task-spawning counterpart
+    ReleaseOrder(u64),
 }
 
 impl Strat {
@@ -33,6 +37,7 @@ impl Strat {
             Strat::StarveOne(_) => "starve_one",
             Strat::ReleaseEager => "release_eager",
             Strat::ReleaseLazy => "release_lazy",
+            Strat::ReleaseOrder(_) => "release_order",
         }
     }
     pub fn from_seed(seed: u64, is_async: bool) -> Strat {
@@ -57,6 +62,8 @@ impl Strat {
 pub struct Opt {
     pub ent: u32,
     pub class: u8,
+    /// identity of the gate for release options: (ev << 32) | occ; 0 otherwise
+    pub key: u64,
 }
 
 pub struct Chooser {
@@ -207,6 +214,30 @@ impl Chooser {
                         rel[self.rng.below(rel.len())]
                     } else {
                         self.rng.below(opts.len())
+                    }
+                }
+                Strat::ReleaseOrder(seed) => {
+                    let mut best: Option<usize> = None;
+                    for (i, o) in opts.iter().enumerate() {
+                        if o.class == 0 {
+                            best = Some(i);
+                            break;
+                        }
+                    }
+                    match best {
+                        Some(i) => i,
+                        None => {
+                            let mut bi = 0;
+                            let mut bh = u64::MAX;
+                            for (i, o) in opts.iter().enumerate() {
+                                let h = crate::rng::mix(seed, o.key);
+                                if o.class == 1 && h <= bh {
+                                    bh = h;
+                                    bi = i;
+                                }
+                            }
+                            bi
+                        }
                     }
                 }
                 Strat::ReleaseLazy => {
